@@ -67,6 +67,7 @@ def generate(seed, tier):
     edefs = {e["name"]: e for e in prog["enums"]}
     rows = [f for f in P.fields("K0") if f["n"] == "rows"]
     fixed_idx = set()
+    cur_len = {}
 
     def scan(o):
         if isinstance(o, dict):
@@ -102,6 +103,11 @@ def generate(seed, tier):
                     return orng.choice(edefs[lf["en"]]["items"])[1]
                 return go.in_range_value({"k": "s", "w": lf["w"], "s": lf["s"]})
             k = orng.choice(["lappend", "lappend", "lextend", "lclear", "lassign", "setitem"])
+            # keep lists short: 'unique' over more elements than the element type has values is a
+            # pigeonhole instance on which the SAT solver itself needs exponential time
+            ln = cur_len.setdefault((p, lf["n"]), max(lf.get("sz", 0), 5 if lf.get("rsz") else 0))
+            if ln >= 7 and k in ("lappend", "lextend"):
+                k = "setitem"
             if lf["n"] in prog.get("frozen", ()):
                 # a foreach indexes a second list with this list's index: lengths stay as declared
                 k = "setitem"
@@ -111,14 +117,18 @@ def generate(seed, tier):
                 k = "lappend"
             if k == "lappend":
                 ops.append({"op": "lappend", "p": p, "path": [lf["n"]], "v": val()})
+                cur_len[(p, lf["n"])] = ln + 1
             elif k == "lextend":
                 ops.append({"op": "lextend", "p": p, "path": [lf["n"]],
                             "v": [val() for _ in range(orng.randint(1, 3))]})
+                cur_len[(p, lf["n"])] = ln + len(ops[-1]["v"])
             elif k == "lclear":
                 ops.append({"op": "lclear", "p": p, "path": [lf["n"]]})
+                cur_len[(p, lf["n"])] = 5 if lf.get("rsz") else 0
             elif k == "lassign":
                 ops.append({"op": "lassign", "p": p, "path": [lf["n"]],
                             "v": [val() for _ in range(orng.randint(0, 4))]})
+                cur_len[(p, lf["n"])] = max(len(ops[-1]["v"]), 5 if lf.get("rsz") else 0)
             else:
                 ops.append({"op": "setitem", "p": p, "path": [lf["n"]], "i": orng.randint(0, 3), "v": val()})
     return {"prop": ID, "seed": seed, "prog": prog, "ops": ops}
